@@ -182,6 +182,48 @@ def discharge(cxs, t_qf=5000, t_full=30000, procs=None, use_cli=True, want_model
     _WORK = []
 
 
+def _retry_idx(args):
+    """Second chance for an obligation that is known to be provable (locked) but came back `unknown`: other seeds, longer."""
+    i, seeds, budget = args
+    axioms, o = _WORK[i]
+    t0 = time.time()
+    try:
+        full = to_smt2(axioms, o.hyps, o.goal)
+        reason = ""
+        for seed in seeds:
+            z3.set_param("smt.random_seed", seed)
+            s = z3.Solver()
+            s.set(timeout=budget)
+            s.set("random_seed", seed)
+            s.from_string(full)
+            r = s.check()
+            if r == z3.unsat:
+                return i, "unsat", f"z3-5.1(retry, seed {seed})", time.time() - t0, "", None
+            if r == z3.sat:
+                return i, "sat", "z3-5.1", time.time() - t0, "", _model_dict(s.model())
+            reason = s.reason_unknown()
+        return i, "unknown", "z3-5.1", time.time() - t0, reason, None
+    except Exception as e:      # noqa
+        return i, "error", "z3-5.1", time.time() - t0, repr(e)[:300], None
+
+
+def retry(pairs, seeds=(11, 12, 13), budget=60000):
+    """pairs: [(axioms, obligation)] that came back unknown; updates them in place."""
+    global _WORK
+    if not pairs:
+        return
+    _WORK = list(pairs)
+    jobs = [(i, seeds, budget) for i in range(len(_WORK))]
+    results = pmap(_retry_idx, jobs, min(16, len(jobs)), lambda j: (j[0], "error", "none", 0.0, "solver process died", None),
+                   job_timeout=len(seeds) * budget / 1000 + 120)
+    for i, status, solver, t, reason, model in results:
+        o = _WORK[i][1]
+        if status in ("unsat", "sat"):
+            o.status, o.solver, o.reason, o.model = status, solver, reason, model
+        o.time += t
+    _WORK = []
+
+
 def check_sat(axioms, hyps, timeout=5000):
     """Reachability (cover) query: is the conjunction satisfiable?"""
     s = z3.Solver()
